@@ -180,3 +180,73 @@ def serve(root):
     install()
     SimAdapter.server = Server(root)
     return SimAdapter.server
+
+
+# ---------------------------------------------------------------------------
+# The same server behind a real loopback socket (conformance of the seam:
+# the unmodified `requests`/urllib3 stack talks to it through the kernel).
+import http.server  # noqa: E402
+import threading  # noqa: E402
+
+
+class _Handler(http.server.BaseHTTPRequestHandler):
+    protocol_version = "HTTP/1.0"       # one request per connection
+    sim = None
+
+    def log_message(self, *a):
+        pass
+
+    def _serve(self, method):
+        from urllib.parse import unquote, urlsplit
+        path = unquote(urlsplit(self.path).path)
+        try:
+            status, hdrs, body, broken = self.sim.handle(
+                method, path, dict(self.headers))
+        except (requests.exceptions.ConnectionError,
+                requests.exceptions.ReadTimeout):
+            # drop the connection without any reply
+            self.close_connection = True
+            try:
+                self.connection.shutdown(2)
+            except OSError:
+                pass
+            return
+        self.send_response(status)
+        for k, v in hdrs.items():
+            self.send_header(k, v)
+        self.end_headers()
+        if method != "HEAD":
+            self.wfile.write(broken if broken is not None else body)
+        self.wfile.flush()
+
+    def do_GET(self):
+        self._serve("GET")
+
+    def do_HEAD(self):
+        self._serve("HEAD")
+
+
+class SocketServer:
+    """serves a Server object on 127.0.0.1:<ephemeral port>"""
+
+    def __init__(self, sim):
+        handler = type("H", (_Handler,), {"sim": sim})
+        self.httpd = http.server.ThreadingHTTPServer(("127.0.0.1", 0),
+                                                     handler)
+        self.port = self.httpd.server_address[1]
+        self.thread = threading.Thread(target=self.httpd.serve_forever,
+                                       kwargs={"poll_interval": 0.01},
+                                       daemon=True)
+        self.thread.start()
+
+    def stop(self):
+        self.httpd.shutdown()
+        self.httpd.server_close()
+        self.thread.join(5)
+
+
+def uninstall():
+    """restore the stock transport (sockets)"""
+    global _installed
+    requests.Session.__init__ = _orig_init
+    _installed = False
